@@ -253,6 +253,29 @@ func (x *Exec) runBlocks(fr *Frame, order []*ssa.BasicBlock, st0 *State, pc0 str
 		x.execBlock(fr, b)
 		fr.outPC[b] = fr.curPC
 		fr.outSt[b] = fr.curSt
+		// loop left through the test in its header: exit assertions (proved from the invariant and the
+		// negated test, then available behind the loop)
+		if l := fr.loops[b]; l != nil && fr.contract != nil && x.probing == 0 && (only == nil || l != only) {
+			for _, s := range b.Succs {
+				if l.Body[s] {
+					continue
+				}
+				for i, cl := range fr.contract.ExitAsserts[l.Ordinal] {
+					if !x.clauseActive(fr.contract, cl) {
+						continue
+					}
+					label := cl.Label
+					if label == "" {
+						label = fmt.Sprintf("x%d", i+1)
+					}
+					env := x.funcEnv(fr, fr.curSt)
+					g := x.evalBool(env, cl.E)
+					epc := fr.edgePC(b, s)
+					x.oblige(fr, "exit", fmt.Sprintf("loop%d:%s", l.Ordinal, label), x.clauseTags(fr.contract, cl), g, epc, "state when the loop is left", cl.Src)
+					x.assume(epc, g)
+				}
+			}
+		}
 		// back edges: invariant preservation
 		for _, s := range b.Succs {
 			if l := fr.loops[s]; l != nil && isLatch(l, b) {
